@@ -150,7 +150,7 @@ def impl():
     return _impl
 
 
-# ops of the buffered model: ("r", n) ("x", n) ("u", delim, m) ("u", delim, m, feeds-during-the-call) ("f", data)
+# ops of the buffered model: ("r", n) ("r", n, feeds-during-the-call) ("x", n) ("u", delim, m) ("u", delim, m, feeds-during-the-call) ("f", data)
 # ("c", k, call): the call runs in a cancel scope; k = 0: the scope is cancelled before the call, k >= 1: its k-th fetch
 # from the wrapped stream is cancelled.  In the flat (model) encoding k is the position where the cancellation was
 # observed: 0 = at entry, nothing touched; j >= 1 = at the j-th fetch (an uncancelled completion in a cancelled scope is 1).
@@ -162,7 +162,12 @@ def buf_flat(kind, chunks, ops):
     for o in ops:
         if o[0] == "c":
             pos, b = o[1], o[2]
-            if b[0] == "r":
+            if b[0] == "r" and len(b) > 2 and b[2]:
+                out += [9, pos, b[1], len(b[2])]
+                for f in b[2]:
+                    out.append(len(f))
+                    out.extend(f)
+            elif b[0] == "r":
                 out += [5, pos, b[1]]
             elif b[0] == "x":
                 out += [6, pos, b[1]]
@@ -174,6 +179,11 @@ def buf_flat(kind, chunks, ops):
                 for f in fs:
                     out.append(len(f))
                     out.extend(f)
+        elif o[0] == "r" and len(o) > 2 and o[2]:
+            out += [8, o[1], len(o[2])]
+            for f in o[2]:
+                out.append(len(f))
+                out.extend(f)
         elif o[0] == "r":
             out += [0, o[1]]
         elif o[0] == "x":
@@ -244,6 +254,7 @@ class BufRun:
                     code = 5
                 else:
                     if t == "r":
+                        wrapped.midfeeds = [bytes(f) for f in o[2]] if len(o) > 2 else []
                         call = s.receive(o[1])
                     elif t == "x":
                         call = s.receive_exactly(o[1])
@@ -312,7 +323,13 @@ class BufRun:
             evs = events[np0:]
             pieces = [b for k, b in evs if k == "p"]
             got = b"".join(pieces)                              # read from the wrapped stream during the call
-            arr_call = b"".join(b for _, b in evs)              # everything that arrived during the call, in order
+            fed_call = b"".join(b for k, b in evs if k == "f")
+            if t == "r":
+                # a receive() that had to wait was parked on an EMPTY buffer before anything was fed: the item it was
+                # waiting for comes first (handed out contiguously), the data fed meanwhile follows the complete item
+                arr_call = got + fed_call
+            else:
+                arr_call = b"".join(b for _, b in evs)          # everything that arrived during the call, in order
             midfed = any(k == "f" and b for k, b in evs)
             if t == "f":
                 arrived += bytes(o[1])
@@ -330,6 +347,14 @@ class BufRun:
             logical1 = buf1 + rest1
             if t != "f" and code == 0 and not midfed and logical0 != val + delim + logical1:
                 mon.append(f"op {idx} {o}: stream {logical0!r} != result {val!r} + delimiter {delim!r} + rest {logical1!r}")
+            if t == "r" and code == 0 and not buf0 and fed_call:
+                flags.add("feed_data_during_receive")
+                item = got
+                if len(item) > len(val):
+                    flags.add("surplus_and_fed_data_after_receive")
+                if val + buf1 != item + fed_call:
+                    mon.append(f"op {idx} {o}: received item {item!r} split by fed data {fed_call!r}: handed out {val!r}, "
+                               f"then the buffer holds {buf1!r} (expected {item[len(val):] + fed_call!r})")
             # M5 a failing call consumes nothing: what arrived meanwhile is in the buffer, in order, behind what was there
             if code in (1, 2, 3, 4, 6, 8):
                 if buf1 != buf0 + arr_call:
@@ -466,9 +491,20 @@ class BufRun:
     def enc_op(cls, o):
         if o[0] == "c":
             return ["c", o[1], cls.enc_op(o[2])]
-        return list(o[:1]) + [([bytes(f).decode("latin-1") for f in x] if i == 2 and o[0] == "u" else
-                               bytes(x).decode("latin-1")) if isinstance(x, (list, tuple, bytes)) else x
-                              for i, x in enumerate(o[1:])]
+
+        def enc(x):
+            if isinstance(x, (list, tuple)) and x and isinstance(x[0], (list, tuple, bytes)):
+                return [bytes(f).decode("latin-1") for f in x]             # feeds
+            if isinstance(x, (list, tuple, bytes)):
+                return bytes(x).decode("latin-1") if not (isinstance(x, (list, tuple)) and not x and False) else x
+            return x
+        out = [o[0]]
+        for i, x in enumerate(o[1:], 1):
+            if (o[0] == "u" and i == 3) or (o[0] == "r" and i == 2):
+                out.append([bytes(f).decode("latin-1") for f in x])
+            else:
+                out.append(enc(x))
+        return out
 
     def replay(self):
         return {"kind": "buffered", "wrapped": "object stream of bytes" if self.kind else "byte stream",
@@ -485,9 +521,15 @@ def buf_from_replay(c):
     def dec(o):
         if o[0] == "c":
             return ("c", o[1], dec(o[2]))
-        return tuple(list(x.encode("latin-1")) if isinstance(x, str) and i > 0 else
-                     ([list(f.encode("latin-1")) if isinstance(f, str) else list(f) for f in x] if isinstance(x, list) and i == 3 else x)
-                     for i, x in enumerate(o))
+        out = [o[0]]
+        for i, x in enumerate(o[1:], 1):
+            if (o[0] == "u" and i == 3) or (o[0] == "r" and i == 2):
+                out.append([list(f.encode("latin-1")) if isinstance(f, str) else list(f) for f in x])
+            elif isinstance(x, str):
+                out.append(list(x.encode("latin-1")))
+            else:
+                out.append(x)
+        return tuple(out)
 
     return BufRun(kind, chunks, [dec(o) for o in c["ops"]])
 
@@ -581,6 +623,25 @@ def buf_midfeed_exhaustive(maxlen):
                             yield kind, ch, [f] if g is None else [f, g]
 
 
+def buf_receive_feed_exhaustive(maxlen):
+    """receive(n) with feed_data during its waits: streams up to maxlen x all chunkings (object streams also with an empty
+    item at every position: several fetches, one feed each) x both kinds x n 1..3 x every list of 1 or 2 feeds, alone,
+    cancelled at the 2nd fetch, or followed by one call that shows the order of what is left"""
+    feeds = [[f] for f in MID_FEEDS[1:]] + [[f, g] for f in MID_FEEDS for g in MID_FEEDS[1:]]
+    afters = [None, ("r", 9), ("x", 2), ("u", [D1], 9)]
+    for ln in range(0, maxlen + 1):
+        for data in itertools.product((A, B, D1, D2), repeat=ln):
+            for ch in chunkings(list(data)):
+                for kind in (0, 1):
+                    for ch2 in (with_empty_items(ch) if kind and ln <= 2 else [ch]):
+                        for n in (1, 2, 3):
+                            for fl in feeds:
+                                for a in afters:
+                                    yield kind, ch2, [("r", n, fl)] + ([a] if a else [])
+                                if kind and len(ch2) > len(ch):
+                                    yield kind, ch2, [("c", 2, ("r", n, fl)), ("r", 9)]
+
+
 def buf_cancel_exhaustive(maxlen):
     """calls in a cancel scope: cancelled before the call (k=0), at their first or second fetch; with or without data
     already buffered; alone or followed by a call that shows what is left"""
@@ -622,7 +683,12 @@ def buf_random(rng, n):
         for _ in range(rng.choice([1, 2, 3, 5, 8])):
             r = rng.random()
             if r < 0.3:
-                ops.append(("r", rng.choice([1, 1, 2, 3, 4, 7, 100, 0, -1])))
+                n = rng.choice([1, 1, 2, 3, 4, 7, 100, 0, -1])
+                if rng.random() < 0.3:
+                    ops.append(("r", n, [[rng.choice(alphabet) for _ in range(rng.choice([0, 1, 2, 3]))]
+                                         for _ in range(rng.choice([1, 2, 3]))]))
+                else:
+                    ops.append(("r", n))
             elif r < 0.55:
                 ops.append(("x", rng.choice([0, 1, 2, 3, 4, 6, 9, 20, -1, -2])))
             elif r < 0.9:
@@ -945,7 +1011,7 @@ async def text_cases(rng, tier):
 # check
 # ----------------------------------------------------------------------------------------------------------------
 
-BUF_NEED = ["cancelled_call", "call_in_cancelled_scope_completed", "cancelled_after_fetching_data",
+BUF_NEED = ["feed_data_during_receive", "surplus_and_fed_data_after_receive", "cancelled_call", "call_in_cancelled_scope_completed", "cancelled_after_fetching_data",
             "cancelled_at_entry_with_buffered_data", "feed_data_during_receive_until", "delimiter_inside_data_fed_during_the_wait", "empty_items_skipped_by_receive",
             "empty_items_then_end_of_stream", "exactly_negative_count", "receive_non_positive_max_bytes",
             "until_non_positive_max_bytes", "delimiter_straddles_buffer_and_new_chunk", "object_surplus_kept", "byte_stream_split_by_max_bytes",
@@ -1039,7 +1105,7 @@ def check(tier: str) -> int:
     rep = core.Report("C16", tier)
     rep.assumptions = [a for a in core.TRUSTED_BASE_COMMON if "asyncio Task" not in a and "SchedLoop" not in a] + [
         "correspondence harness (Python): fake transports, canonicalisation, generators, monitors - differential testing, bounds but does not remove the model/code gap",
-        "model pure/Buffered.v hand-written from streams/buffered.py:30-172 (HEAD incl. fixes F27-F29); the wrapped stream is data (chunk list): a byte stream hands out min(max_bytes,|chunk|) bytes of its next chunk, an object stream whole items (possibly empty); concurrency = feed_data() by another task during the waits of receive_until (one feed per fetch); a second concurrent reader and aclose() are not modelled",
+        "model pure/Buffered.v hand-written from streams/buffered.py:30-172 (HEAD incl. fixes F27-F29); the wrapped stream is data (chunk list): a byte stream hands out min(max_bytes,|chunk|) bytes of its next chunk, an object stream whole items (possibly empty); concurrency = feed_data() by another task during the waits of receive and receive_until (one feed per fetch); cancellation of a call before it starts or at any fetch; a second concurrent reader, feeds during the waits of receive_exactly and aclose() are not modelled",
         "model pure/Text.v hand-written from streams/text.py:33-108; CPython 3.12 codecs (strict) are a modelled environment: utf-8/latin-1 automata proved against the encoders in Coq, utf-16/utf-32 (+BOM handling, -le/-be) validated by this harness against `codecs` only; native byte order little endian",
     ]
     if sys.byteorder != "little":
@@ -1093,6 +1159,14 @@ def check(tier: str) -> int:
                        "delimiters": "; and ;\\n", "max_bytes": "3, 9",
                        "feeds": "every list of 1 or 2 feeds over '' a ; \\n a;b ;\\n (one per fetch)",
                        "then": "nothing | receive(3) | receive_until(';', 9) | receive_exactly(1)"})
+        for kind, ch, ops in buf_receive_feed_exhaustive(mid_len):
+            sb.add(await BufRun(kind, ch, ops).run())
+            n_ex += 1
+        bounds.append({"family": "feed_data during the waits of receive", "stream_length_upto": mid_len,
+                       "chunkings": "all; object streams also with an empty item at every position",
+                       "wrapped": ["byte stream", "object stream"], "n": "1..3",
+                       "feeds": "every list of 1 or 2 feeds over '' a ; \\n a;b ;\\n (one per fetch)",
+                       "then": "nothing | receive(9) | receive_exactly(2) | receive_until(';', 9); cancelled at the 2nd fetch"})
         can_len = 2 if quick else 3
         for kind, ch, ops in buf_cancel_exhaustive(can_len):
             sb.add(await BufRun(kind, ch, ops).run())
